@@ -5788,7 +5788,9 @@ impl BytecodeVM {
                 JsValue::String(k) if k.as_str() == "length" => Ok(Guarded::unguarded(
                     JsValue::Number(s.as_str().chars().count() as f64),
                 )),
-                JsValue::Number(n) => {
+                // Only canonical array indices (non-negative integers) address characters;
+                // "abc"[-1] and "abc"[0.5] are ordinary (absent) properties
+                JsValue::Number(n) if *n >= 0.0 && n.trunc() == *n => {
                     let idx = *n as usize;
                     if let Some(c) = s.as_str().chars().nth(idx) {
                         return Ok(Guarded::unguarded(JsValue::String(JsString::from(
